@@ -1,11 +1,13 @@
 import Rangers.Basic.Hex
+import Rangers.Model.RLP
 /-!
 C07 helpers (core Lean only): Go string renderings used by the transaction
 authenticity code, and the RLP coding of the wrapped Ethereum transaction
 payload (`eth_tx.txdata`), exactly as `storage/rlp` decodes/encodes that one
 struct type.  Go strings are byte sequences, so every string is `Bytes`.
 
-Kept private to C07 on purpose (other builders own Model/RLP, Json, Decimal).
+The RLP layer is C08's model (`Model/RLP.lean`); only the typing of the nine items as
+`eth_tx.txdata` lives here.
 -/
 namespace Rangers.Model.TxAuth
 open Rangers
@@ -81,88 +83,15 @@ def bigIntToStr (n : Nat) : Bytes :=
   else
     number.take (len - 18) ++ 46 :: number.drop (len - 18)
 
-/-! ## RLP of the payload struct -/
+/-! ## RLP of the payload struct — on top of the C08 model (`Model/RLP.lean`)
 
-/-- Big-endian integer of `size` bytes as `Stream.readUint` reads it for a
-    *size* field: `none` on short input or (size ≥ 2) a leading zero byte. -/
-def readSizeBE (size : Nat) (inp : Bytes) : Option (Nat × Bytes) :=
-  if size = 0 then some (0, inp)
-  else if inp.length < size then none
-  else
-    let bs := inp.take size
-    if size ≥ 2 ∧ bs.head? = some 0 then none
-    else some (beToNat bs, inp.drop size)
-
-inductive Kind where
-  | byte (b : UInt8)
-  | str (size : Nat)
-  | list (size : Nat)
-deriving Repr, DecidableEq
-
-/-- `Stream.readKind`: header of the next value; `none` on EOF / non-canonical size. -/
-def readKind : Bytes → Option (Kind × Bytes)
-  | [] => none
-  | b :: rest =>
-    if b < 0x80 then some (.byte b, rest)
-    else if b < 0xB8 then some (.str (b.toNat - 0x80), rest)
-    else if b < 0xC0 then
-      match readSizeBE (b.toNat - 0xB7) rest with
-      | some (sz, r) => if sz < 56 then none else some (.str sz, r)
-      | none => none
-    else if b < 0xF8 then some (.list (b.toNat - 0xC0), rest)
-    else
-      match readSizeBE (b.toNat - 0xF7) rest with
-      | some (sz, r) => if sz < 56 then none else some (.list sz, r)
-      | none => none
-
-def headLt128 : Bytes → Bool
-  | b :: _ => b < 128
-  | [] => false
-
-/-- `Stream.Bytes`. -/
-def decBytes (inp : Bytes) : Option (Bytes × Bytes) :=
-  match readKind inp with
-  | some (.byte b, r) => some ([b], r)
-  | some (.str sz, r) =>
-    if r.length < sz then none
-    else
-      let c := r.take sz
-      if sz = 1 ∧ headLt128 c then none
-      else some (c, r.drop sz)
-  | _ => none
-
-/-- `decodeBigInt`: a byte string without leading zero. -/
-def decBig (inp : Bytes) : Option (Nat × Bytes) :=
-  match decBytes inp with
-  | some (c, r) => if c.head? = some 0 then none else some (beToNat c, r)
-  | none => none
-
-/-- `Stream.uint(64)`. -/
-def decU64 (inp : Bytes) : Option (Nat × Bytes) :=
-  match readKind inp with
-  | some (.byte b, r) => if b = 0 then none else some (b.toNat, r)
-  | some (.str sz, r) =>
-    if sz > 8 then none
-    else if r.length < sz then none
-    else
-      let c := r.take sz
-      if c.head? = some 0 then none
-      else
-        let v := beToNat c
-        if sz > 0 ∧ v < 128 then none else some (v, r.drop sz)
-  | _ => none
-
-/-- `makeOptionalPtrDecoder` over `decodeByteArray` for `*common.Address` with
-    tag `rlp:"nil"`: an *empty string or empty list* is nil; otherwise exactly 20 bytes. -/
-def decOptAddr (inp : Bytes) : Option (Option Bytes × Bytes) :=
-  match readKind inp with
-  | some (.str 0, r) => some (none, r)
-  | some (.list 0, r) => some (none, r)
-  | some (.str sz, r) =>
-    if sz ≠ 20 then none
-    else if r.length < 20 then none
-    else some (some (r.take 20), r.drop 20)
-  | _ => none
+`rlp.DecodeBytes(b, new(eth_tx.Transaction))` is the generic item decoder of C08
+(`RLP.decodeBytes`: canonical sizes, canonical single bytes, exact length, no trailing
+data — `Props/C08.lean` proves it lossless and canonical) followed by the typing of the
+nine items as the fields of `eth_tx.txdata` (`txOfItem`): two `uint64`, five `*big.Int`,
+one byte string and the `rlp:"nil"` recipient.  The field typing uses C08's
+`uintOfContent` / `bigOfContent` (`integers_canonical`, `big_integers_canonical`).
+-/
 
 /-- The consensus content of an Ethereum legacy transaction (`eth_tx.txdata`). -/
 structure EthTx where
@@ -177,74 +106,58 @@ structure EthTx where
   s : Nat
 deriving Repr, DecidableEq
 
-def decFields (p : Bytes) : Option EthTx :=
-  match decU64 p with
-  | none => none
-  | some (nonce, p1) =>
-  match decBig p1 with
-  | none => none
-  | some (price, p2) =>
-  match decU64 p2 with
-  | none => none
-  | some (gas, p3) =>
-  match decOptAddr p3 with
-  | none => none
-  | some (to, p4) =>
-  match decBig p4 with
-  | none => none
-  | some (value, p5) =>
-  match decBytes p5 with
-  | none => none
-  | some (data, p6) =>
-  match decBig p6 with
-  | none => none
-  | some (v, p7) =>
-  match decBig p7 with
-  | none => none
-  | some (r, p8) =>
-  match decBig p8 with
-  | none => none
-  | some (s, p9) =>
-    if p9.isEmpty then some { nonce, price, gas, to, value, data, v, r, s } else none
+def okOpt {α : Type} : Except RLP.Err α → Option α
+  | .ok a => some a
+  | .error _ => none
 
-/-- `rlp.DecodeBytes(enc, new(eth_tx.Transaction))`: one list whose payload is
-    exactly the rest of the input, holding exactly the nine fields. -/
-def decodeTx (enc : Bytes) : Option EthTx :=
-  match readKind enc with
-  | some (.list sz, rest) => if rest.length = sz then decFields rest else none
+/-- `makeOptionalPtrDecoder` over `decodeByteArray` for `*common.Address` with tag
+    `rlp:"nil"`: an item of size 0 that is not a single byte — the empty string **or the
+    empty list** — is nil; otherwise a string of exactly 20 bytes. -/
+def toOfItem : RLP.Item → Option (Option Bytes)
+  | .str [] => some none
+  | .list [] => some none
+  | .str a => if a.length = 20 then some (some a) else none
+  | .list _ => none
+
+/-- typing of the decoded item as `eth_tx.txdata` -/
+def txOfItem : RLP.Item → Option EthTx
+  | .list [.str n, .str p, .str g, to, .str vl, .str d, .str v, .str r, .str s] =>
+    match okOpt (RLP.uintOfContent 64 n), okOpt (RLP.bigOfContent p), okOpt (RLP.uintOfContent 64 g),
+          toOfItem to, okOpt (RLP.bigOfContent vl), okOpt (RLP.bigOfContent v),
+          okOpt (RLP.bigOfContent r), okOpt (RLP.bigOfContent s) with
+    | some nonce, some price, some gas, some to, some value, some v, some r, some s =>
+      some { nonce, price, gas, to, value, data := d, v, r, s }
+    | _, _, _, _, _, _, _, _ => none
   | _ => none
 
-def rlpHeader (base : Nat) (len : Nat) : Bytes :=
-  if len < 56 then [UInt8.ofNat (base + len)]
-  else
-    let lb := natToBE len
-    UInt8.ofNat (base + 55 + lb.length) :: lb
+/-- `rlp.DecodeBytes(enc, new(eth_tx.Transaction))`. -/
+def decodeTx (enc : Bytes) : Option EthTx :=
+  match RLP.decodeBytes enc with
+  | .ok it => txOfItem it
+  | .error _ => none
 
-def encBytes (bs : Bytes) : Bytes :=
-  match bs with
-  | [b] => if b < 128 then [b] else rlpHeader 0x80 1 ++ bs
-  | _ => rlpHeader 0x80 bs.length ++ bs
+def toItem : Option Bytes → RLP.Item
+  | none => .str []
+  | some a => .str a
 
-def encNat (n : Nat) : Bytes := encBytes (natToBE n)
+/-- the six signed content fields as items (`uint64` and `*big.Int` both write the minimal
+    big-endian form, `writeUint` / `writeBigInt`) -/
+def coreItems (e : EthTx) : List RLP.Item :=
+  [.str (RLP.toBE e.nonce), .str (RLP.toBE e.price), .str (RLP.toBE e.gas), toItem e.to,
+   .str (RLP.toBE e.value), .str e.data]
 
-def encTo : Option Bytes → Bytes
-  | none => [0x80]
-  | some a => encBytes a
-
-def encList (payload : Bytes) : Bytes := rlpHeader 0xC0 payload.length ++ payload
-
-def coreFields (e : EthTx) : Bytes :=
-  encNat e.nonce ++ encNat e.price ++ encNat e.gas ++ encTo e.to ++ encNat e.value ++ encBytes e.data
+/-- the item `rlp.Encode(&tx.data)` writes -/
+def itemOfTx (e : EthTx) : RLP.Item :=
+  .list (coreItems e ++ [.str (RLP.toBE e.v), .str (RLP.toBE e.r), .str (RLP.toBE e.s)])
 
 /-- `rlp.Encode(&tx.data)` — the preimage of `Transaction.Hash()`. -/
-def encodeTx (e : EthTx) : Bytes :=
-  encList (coreFields e ++ encNat e.v ++ encNat e.r ++ encNat e.s)
+def encodeTx (e : EthTx) : Bytes := RLP.encode (itemOfTx e)
 
-/-- preimage of `EIP155Signer.Hash`. -/
+/-- preimage of `EIP155Signer.Hash`: the six fields, chain id, 0, 0. -/
 def sigPreimage155 (chainId : Nat) (e : EthTx) : Bytes :=
-  encList (coreFields e ++ encNat chainId ++ [0x80] ++ [0x80])
+  RLP.encode (.list (coreItems e ++ [.str (RLP.toBE chainId), .str [], .str []]))
 
 /-- preimage of `HomesteadSigner.Hash` (= FrontierSigner.Hash). -/
-def sigPreimageHomestead (e : EthTx) : Bytes := encList (coreFields e)
+def sigPreimageHomestead (e : EthTx) : Bytes := RLP.encode (.list (coreItems e))
 
 end Rangers.Model.TxAuth
